@@ -4,6 +4,7 @@ import (
 	"encoding/json"
 	"fmt"
 	"strings"
+	"sync/atomic"
 	"time"
 
 	"github.com/vektah/gqlparser/v2/ast"
@@ -140,7 +141,7 @@ func scenSUB(s *sched.Sim, cfg Config, res *Result) {
 		s.Describe(map[string]any{"services": w.ServiceSDL, "gateway": gc.String(), "subscriptions": d})
 	}
 	clients := make([]*wsClient, nConn)
-	finished := 0
+	var finished atomic.Int32
 	// drawn here, on the driver goroutine: client goroutines can be woken concurrently by timers
 	// and must not touch the tape
 	stopFirst := make([]bool, nConn)
@@ -150,7 +151,7 @@ func scenSUB(s *sched.Sim, cfg Config, res *Result) {
 	for c := 0; c < nConn; c++ {
 		c := c
 		s.Go(fmt.Sprintf("wsclient%d", c), func() {
-			defer func() { finished++ }()
+			defer func() { finished.Add(1) }()
 			cl := env.connect(fmt.Sprintf("c%d", c))
 			clients[c] = cl
 			if cl.dialErr != "" {
@@ -185,7 +186,7 @@ func scenSUB(s *sched.Sim, cfg Config, res *Result) {
 			cl.send("connection_terminate", "", nil)
 			// give the gateway time to close, then go away
 			dl := time.Now().Add(30 * time.Second)
-			for !cl.closed && time.Now().Before(dl) {
+			for !cl.isClosed() && time.Now().Before(dl) {
 				time.Sleep(100 * time.Millisecond)
 			}
 			cl.conn.Close()
@@ -193,7 +194,7 @@ func scenSUB(s *sched.Sim, cfg Config, res *Result) {
 	}
 	addTick(s, 6, 4100*time.Millisecond, func() bool { return env.handshaking() == 0 })
 	defer env.closeAll()
-	end := s.Run(func() bool { return finished == nConn }, 600000, 200*time.Second)
+	end := s.Run(func() bool { return int(finished.Load()) == nConn }, 600000, 200*time.Second)
 	if end == sched.Hang {
 		res.Violate(prop+"/hang", "subscription clients did not finish: parked=%v alive=%v", s.ParkedLabels(), clipStr(fmt.Sprint(s.Alive()), 400))
 	} else if end == sched.StepBudget {
